@@ -1,4 +1,5 @@
 import Dia.DictRefine
+import Dia.DictApps
 /-! # C14 - Dictionary lookups reflect exactly what was loaded, latest wins. Property theorems only.
 The abstract spec is the list of definitions supplied so far (since the last construction), in order: a lookup
 returns the *last* one supplied for exactly that (code, vendor) pair. -/
@@ -97,6 +98,17 @@ theorem C14_app_declared (D : Dict) (app : DocApp) : (D.loadApp app).appByName a
     | cons a as ih => intro D; simp only [List.foldl_cons]; rw [ih]; rfl
   rw [ha, hc]
   simp [lookupName]
+
+/-- **application and command names over whole histories.** After any history, an application (command) name resolves
+to the identifier of the *last* declaration of that name supplied since the last construction, and to nothing if it
+was never declared. -/
+theorem C14_apps_cmds (ops : List DOp) (n : String) :
+    (runD ops).appByName n = ((declaredApps ops).reverse.find? (fun p => p.1 = n)).map (·.2) ∧
+    (runD ops).cmdByName n = ((declaredCmds ops).reverse.find? (fun p => p.1 = n)).map (·.2) := by
+  obtain ⟨h1, h2⟩ := run_apps_cmds ops
+  unfold Dict.appByName Dict.cmdByName
+  rw [h1, h2, lookupName_eq_find, lookupName_eq_find]
+  exact ⟨rfl, rfl⟩
 
 /-- the mandatory flag is set exactly when the comma-separated `must` list contains the item `M` -/
 theorem C14_mflag (must : Option String) :
